@@ -235,21 +235,19 @@ func (s *Store) List(
 			break
 		}
 
-		entry, ok := filteredStore[i]
+		// The order applies to the whole result and not to the page: when descending, position i counts from the
+		// newest matching run, so that consecutive pages walk from the newest run to the oldest.
+		position := i
+		if order == workflow.OrderTypeDescending {
+			position = length - i + 1
+		}
+
+		entry, ok := filteredStore[position]
 		if !ok {
 			continue
 		}
 
 		entries = append(entries, *copyRecord(entry))
-	}
-
-	if order == workflow.OrderTypeDescending {
-		var descEntries []workflow.Record
-		for i := len(entries) - 1; i >= 0; i-- {
-			descEntries = append(descEntries, entries[i])
-		}
-
-		return descEntries, nil
 	}
 
 	return entries, nil
